@@ -527,16 +527,91 @@ func c03Run(r *Run) {
 					if !ok || tv.Value != nil {
 						return s
 					}
-					bt, isBasic := tv.Type.Underlying().(*types.Basic)
-					if !isBasic || bt.Info()&types.IsUnsigned != 0 {
+					if _, isBasic := tv.Type.Underlying().(*types.Basic); !isBasic {
 						return s
 					}
-					k := exprStr(ast.Unparen(x.Y))
 					key := "shift:" + exprStr(x)
+					// the count must be the operand value itself: masking or reducing it (count & 63,
+					// count % 64) makes large counts wrap instead of shifting everything out
+					masked := false
+					ast.Inspect(x.Y, func(n ast.Node) bool {
+						if be, ok := n.(*ast.BinaryExpr); ok && (be.Op == token.AND || be.Op == token.REM) {
+							masked = true
+						}
+						return true
+					})
+					// a count produced by a package function: look at what that function returns
+					if id, ok := ast.Unparen(x.Y).(*ast.Ident); ok && !masked {
+						cobj := info.Uses[id]
+						ast.Inspect(fd.Body, func(n ast.Node) bool {
+							as, ok := n.(*ast.AssignStmt)
+							if !ok || len(as.Rhs) != 1 {
+								return true
+							}
+							call, ok := ast.Unparen(as.Rhs[0]).(*ast.CallExpr)
+							if !ok {
+								return true
+							}
+							for ri, l := range as.Lhs {
+								lid, ok := l.(*ast.Ident)
+								if !ok || (info.Defs[lid] != cobj && info.Uses[lid] != cobj) {
+									continue
+								}
+								cal, _ := calleeOf(info, call).(*types.Func)
+								if cal == nil || cal.Pkg() != npkg.Types {
+									continue
+								}
+								for _, cfd := range funcDecls(npkg) {
+									if info.Defs[cfd.Name] != cal {
+										continue
+									}
+									ast.Inspect(cfd.Body, func(m ast.Node) bool {
+										rs, ok := m.(*ast.ReturnStmt)
+										if !ok || ri >= len(rs.Results) {
+											return true
+										}
+										ast.Inspect(rs.Results[ri], func(k ast.Node) bool {
+											if be, ok := k.(*ast.BinaryExpr); ok && (be.Op == token.AND || be.Op == token.REM) {
+												masked = true
+											}
+											return true
+										})
+										return true
+									})
+								}
+							}
+							return true
+						})
+					}
+					if masked {
+						record("C03-SHIFT", key, x.Pos(), false, "the shift count is masked or reduced ("+exprStr(x.Y)+"): counts of 64 and more wrap around instead of shifting every bit out")
+						return s
+					}
+					// look through a conversion to an unsigned type: the signed source must be tested
+					cnt := ast.Unparen(x.Y)
+					for {
+						c, ok := cnt.(*ast.CallExpr)
+						if !ok || len(c.Args) != 1 {
+							break
+						}
+						if ctv, ok := info.Types[c.Fun]; !ok || !ctv.IsType() {
+							break
+						}
+						cnt = ast.Unparen(c.Args[0])
+					}
+					ctv, ok := info.Types[cnt]
+					if !ok {
+						return s
+					}
+					if cb, ok := ctv.Type.Underlying().(*types.Basic); ok && cb.Info()&types.IsUnsigned != 0 {
+						record("C03-SHIFT", key, x.Pos(), true, "unsigned shift count")
+						return s
+					}
+					k := exprStr(cnt)
 					if s.nonneg[k] {
 						record("C03-SHIFT", key, x.Pos(), true, "shift count "+k+" rejected when negative")
 					} else {
-						record("C03-SHIFT", key, x.Pos(), false, "signed shift count "+k+" is not rejected when negative: Go panics with 'negative shift amount'")
+						record("C03-SHIFT", key, x.Pos(), false, "signed shift count "+k+" is not rejected when negative: Go panics with 'negative shift amount' (or a conversion to unsigned turns it into a huge count)")
 					}
 				}
 			}
